@@ -52,6 +52,7 @@ static struct Sched {
     volatile int main_futex = 0;
     int max_overlap = 0, blocked_events = 0;
     bool aborting = false;
+    volatile int started = 0;       // threads that have finished starting up (a thread still in its start-up may hold allocator locks a forked child would inherit)
 } S;
 
 static void fwait(volatile int *w) {
@@ -344,14 +345,50 @@ static void finish_thread(int me) {
     if (next < 0) sim_abort("deadlock", "remaining threads are all blocked");
     fwake(&S.t[next].futex);
 }
+// A thread of a batch forks: prepare handlers, a real fork() whose child makes one wrapped call and reports, parent handlers.
+// Several threads may be doing this at the same time (the handlers are library code with scheduling points in them).
+static void child_main(int wfd, const ExecOp &call, bool grandchild, int depth);
+static const ExecOp *g_batch_child = nullptr; static std::vector<J> g_batch_children;
+static void batch_fork(int me) {
+    sim_event("fork");
+    for (size_t k = G.atfork.size(); k-- > 0;) if (G.atfork[k].prepare) { t_in_sut = 1; G.atfork[k].prepare(); t_in_sut = 0; }
+    // a finished thread may still be in its (sanitizer) teardown holding allocator locks the child would inherit: then the fork is
+    // only acted out in the parent (handlers), without a child
+    sched_point(SP_IO);   // fork() is a system call like any other: the other threads go on while this one is in it
+    bool can = g_batch_child != nullptr; for (int i = 0; i < S.n; i++) if (i != me && S.t[i].state == TS_DONE) can = false;
+    int pfd[2] = {-1, -1}; pid_t p = -1;
+    if (can) {
+        if (pipe(pfd) != 0) { dprintf(2, "harness problem: pipe failed\n"); _exit(2); }
+        p = fork();
+        if (p < 0) { dprintf(2, "harness problem: fork failed\n"); _exit(2); }
+        if (p == 0) { close(pfd[0]); child_main(pfd[1], *g_batch_child, false, 0); }
+        close(pfd[1]);
+    }
+    sched_point(SP_IO);
+    for (auto &h : G.atfork) if (h.parent) { t_in_sut = 1; h.parent(); t_in_sut = 0; }
+    if (can) {
+        std::string s; char b[4096]; ssize_t n;
+        while ((n = read(pfd[0], b, sizeof b)) > 0) s.append(b, (size_t)n);
+        close(pfd[0]);
+        int st = 0; waitpid(p, &st, 0);
+        J c; if (!J::parse(s, c)) { c = J::obj(); c.set("completed", false); c.set("abort_class", "child-died"); c.set("abort_detail", "status " + std::to_string(st) + " output " + s); }
+        c.set("forker", me);
+        g_batch_children.push_back(c);
+        G.counters["batch-fork-with-child"]++;
+    } else G.counters["batch-fork-parent-side-only"]++;
+}
 static void *thread_body(void *p) {
     int me = ((ThreadArg *)p)->idx;
     t_thr = me; t_in_sut = 0; t_in_sim = 0;
     // every thread of the caller has its own signal mask (per-thread state that a wrapped call has to leave as it found it)
     { sigset_t m; sigemptyset(&m); if (me & 1) sigaddset(&m, SIGUSR1); if (me & 2) sigaddset(&m, SIGUSR2); if (me % 3 == 0) sigaddset(&m, SIGWINCH); sigaddset(&m, SIGRTMIN + 3 + me % 8); pthread_sigmask(SIG_BLOCK, &m, nullptr); }
+    __atomic_add_fetch(&S.started, 1, __ATOMIC_ACQ_REL);
     fwait(&S.t[me].futex);
     const std::vector<ExecOp> &calls = *S.t[me].calls;
-    for (size_t k = 0; k < calls.size(); k++) exec_call(calls[k], S.t[me].first_opi + (int)k, (*S.t[me].obs)[(size_t)S.t[me].first_opi + k]);
+    for (size_t k = 0; k < calls.size(); k++) {
+        for (int f = 0; f < calls[k].forks_before; f++) batch_fork(me);
+        exec_call(calls[k], S.t[me].first_opi + (int)k, (*S.t[me].obs)[(size_t)S.t[me].first_opi + k]);
+    }
     finish_thread(me);
     return nullptr;
 }
@@ -363,6 +400,7 @@ static int g_app_opens = 0; static std::string g_app_damage;
 static void *app_body(void *p) {
     int me = ((ThreadArg *)p)->idx;
     t_thr = me; t_in_sut = 0; t_in_sim = 0;
+    __atomic_add_fetch(&S.started, 1, __ATOMIC_ACQ_REL);
     fwait(&S.t[me].futex);
     for (int k = 0; k < g_app_opens; k++) {
         int fd, id;
@@ -386,6 +424,7 @@ void run_batch(const Plan &plan, int opi, const Op &op, RunResult &r) {
     if (n < 1 || n > 64) return;
     S = Sched();
     g_app_opens = op.app_opens; g_app_damage.clear();
+    g_batch_child = op.child_ex.path.empty() ? nullptr : &op.child_ex; g_batch_children.clear();
     S.n = n + (op.app_opens > 0 ? 1 : 0); S.policy = op.policy; S.rng.reseed(op.sched_seed ^ 0x5ced);
     S.have_replay = op.have_schedule; S.replay = op.schedule;
     size_t base = r.obs.size(); int total = 0;
@@ -430,11 +469,13 @@ void run_batch(const Plan &plan, int opi, const Op &op, RunResult &r) {
         if (pthread_create(&S.t[n].th, &at, app_body, &args[n]) != 0) { dprintf(2, "harness problem: pthread_create failed\n"); _exit(2); }
         pthread_attr_destroy(&at);
     }
+    while (__atomic_load_n(&S.started, __ATOMIC_ACQUIRE) < S.n) sched_yield();
     int first = choose(-1);
     fwake(&S.t[first].futex);
     fwait(&S.main_futex);
     if (!g_app_damage.empty()) { G.counters["app-descriptor-damaged"]++; if (r.abort_class.empty() && G.abort_class.empty()) { r.app_damage = g_app_damage; } }
     r.schedule = S.trace; r.sched_points = (int)S.total_points; r.max_overlap = S.max_overlap; r.blocked_on_mutex = S.blocked_events;
+    if (!g_batch_children.empty()) { J a = J::arr(); for (auto &c : g_batch_children) a.push(c); r.child = a; }
     if (!S.aborting) {
         for (int i = 0; i < S.n; i++) pthread_join(S.t[i].th, nullptr);
         G.multi = false;
@@ -520,6 +561,7 @@ static void child_main(int wfd, const ExecOp &call, bool grandchild, int depth) 
 // thread 0 of a ForkExec operation: the forking thread ("A"), outside the library until it forks
 static void *forker_body(void *) {
     t_thr = 0; t_in_sut = 0; t_in_sim = 0;
+    __atomic_add_fetch(&S.started, 1, __ATOMIC_ACQ_REL);
     fwait(&S.t[0].futex);
     const Op &op = *g_fc.op;
     // prepare handlers (library code; may take the registry mutex and have to wait for B)
@@ -549,6 +591,7 @@ static void *forker_body(void *) {
 }
 static void *b_body(void *) {
     t_thr = 1; t_in_sut = 0; t_in_sim = 0;
+    __atomic_add_fetch(&S.started, 1, __ATOMIC_ACQ_REL);
     fwait(&S.t[1].futex);
     exec_call(g_fc.op->ex, g_fc.opi, (*g_fc.r).obs[(size_t)g_fc.opi]);
     if (S.phase == 0) S.phase = 1;     // B finished before its fork point: fork afterwards
@@ -560,6 +603,7 @@ static ExecObs g_extra_obs[MAXT];
 static void *extra_body(void *p) {
     int me = (int)(intptr_t)p;
     t_thr = me; t_in_sut = 0; t_in_sim = 0;
+    __atomic_add_fetch(&S.started, 1, __ATOMIC_ACQ_REL);
     fwait(&S.t[me].futex);
     g_extra_obs[me] = ExecObs();
     exec_call(g_fc.op->extra_calls[(size_t)me - 2], 2000 + me, g_extra_obs[me]);
@@ -583,6 +627,7 @@ void run_forkexec(const Plan &plan, int opi, const Op &op, RunResult &r) {
     pthread_create(&S.t[0].th, nullptr, forker_body, nullptr);
     pthread_create(&S.t[1].th, nullptr, b_body, nullptr);
     for (int i = 0; i < nextra; i++) { S.t[2 + i].state = TS_RUNNABLE; pthread_create(&S.t[2 + i].th, nullptr, extra_body, (void *)(intptr_t)(2 + i)); }
+    while (__atomic_load_n(&S.started, __ATOMIC_ACQUIRE) < S.n) sched_yield();
     int first = choose(-1);
     fwake(&S.t[first].futex);
     fwait(&S.main_futex);
